@@ -199,6 +199,17 @@ func C08(c *core.Ctx) {
 			texts = append(texts, t)
 		}
 	}
+	// journals without any directive (notes, commented-out entries, blank or whitespace-only files), one
+	// directive only, one include only, with and without a final newline
+	for _, t := range append([]string{"", "\n", "\n\n\n", "   \n\t\n", "# notes only\n", "// nothing here", "* heading\n\n# c1\n// c2\n\n", "# é\n#\n#x",
+		"# commented out:\n# 2020-01-01 open Assets:A\n\n\n// 2020-01-02 \"t\"\n// Assets:A Assets:B 1 CHF\n",
+		"2020-01-01   open   Assets:A", "2020-01-01 open Assets:A\n", "\n\n2020-01-01   price  USD   0.90  CHF\n\n\n", "include \"x.knut\"", "\n# top\ninclude   \"sub/y.knut\"\n# bottom\n",
+		"\ufeff# bom and notes\n", "\r\n# crlf notes\r\n\r\n"}, quotedStringTexts()...) {
+		if !seen[t] {
+			seen[t] = true
+			texts = append(texts, t)
+		}
+	}
 	cases := make([]map[string]any, len(texts))
 	core.Parallel(len(texts), func(i int) { cases[i] = formatCase(bin, dir, i+1, texts[i]) })
 	nt, okc := 0, 0
